@@ -583,6 +583,10 @@ class PDFStandardSecurityHandlerV5(PDFStandardSecurityHandlerV4):
         self.length = 256
         self.oe = str_value(self.param.get("OE"))
         self.ue = str_value(self.param.get("UE"))
+        if len(self.oe) != 32 or len(self.ue) != 32:
+            # the encrypted file key is exactly one 32-byte value
+            error_msg = "Invalid OE or UE entry: param=%r" % self.param
+            raise PDFEncryptionError(error_msg)
         self.o_hash = self.o[:32]
         self.o_validation_salt = self.o[32:40]
         self.o_key_salt = self.o[40:]
